@@ -1034,6 +1034,11 @@ def gen_pairing(ctx, exe, cid, cv, scale, lvl=2):
             for _ in range(2 if heavy0 else 1):
                 ms = [message(rng, rng.choice(lens)) for _ in range(l)]
                 add("clb_sig %s %d %s %x %x %s" % (seedhex(rng), l, " ".join(bx(m) for m in ms), t, u, " ".join("%x" % v for v in vs)), "clb", (t, u, vs), ms)
+            if l > 1:
+                # equal blocks: the final equation cannot tell compensating changes of two components apart — each relation has to hold alone
+                m0 = message(rng, rng.choice(lens))
+                add("clb_sig %s %d %s %x %x %s" % (seedhex(rng), l, " ".join(bx(m0) for _ in range(l)), t, u, " ".join("%x" % v for v in vs)),
+                    "clb", (t, u, vs), [m0] * l)
     # PS
     if "r" in G["pss_gen"]:
         r, s0 = int(G["pss_gen"]["r"], 16), int(G["pss_gen"]["s0"], 16)
@@ -1215,6 +1220,15 @@ def gen_pairing(ctx, exe, cid, cv, scale, lvl=2):
             if l > 1:
                 V(ms_=ms[::-1])
                 V(As_=As[::-1], Bs_=Bs[::-1])
+                # compensating changes: two components moved by +D and -D keep every sum of components (a verifier that multiplies its
+                # pairing checks together without random exponents accepts them); each pair of components that enter the same kind of relation
+                D = cv.mul(cv.g, rnd_scalar(rng, n))
+                mD = (D[0], (cv.p - D[1]) % cv.p)
+                V(Bs_=[cv.add(Bs[0], D), cv.add(Bs[1], mD)] + Bs[2:])
+                V(As_=[cv.add(As[0], D), cv.add(As[1], mD)] + As[2:])
+                V(b_=cv.add(b, D), Bs_=[cv.add(Bs[0], mD)] + Bs[1:])
+                V(a_=cv.add(a, D), As_=[cv.add(As[0], mD)] + As[1:])
+                V(As_=[cv.add(As[0], D), cv.add(As[1], mD)] + As[2:], Bs_=[cv.add(Bs[0], D), cv.add(Bs[1], mD)] + Bs[2:])
             Ks = ["k:%x" % t, "k:%x" % u] + ["k:%x" % v for v in vs]
             for i in range(len(Ks)):
                 for K in key_alts(rng, n, [t, u] + vs and ([t, u] + vs)[i], None, False)[:(2 if i < 2 else 1)]:
